@@ -5,6 +5,7 @@ package main
 import (
 	"fmt"
 	"io"
+	"sort"
 	"strings"
 
 	"github.com/gofiber/fiber/v3"
@@ -199,7 +200,16 @@ func observe(c cfgIn, q reqIn) (obs string) {
 	rh := &fctx.Response.Header
 	var vary []string
 	if v := string(rh.Peek("Vary")); v != "" {
-		vary = strings.Split(v, ", ")
+		// canonical: sorted set (the property only speaks about membership)
+		seen := map[string]bool{}
+		for _, x := range strings.Split(v, ",") {
+			x = strings.TrimSpace(x)
+			if x != "" && !seen[x] {
+				seen[x] = true
+				vary = append(vary, x)
+			}
+		}
+		sort.Strings(vary)
 	}
 	return fmt.Sprintf("next=%s;s204=%s;acao=%s;acac=%s;vary=%s;am=%s;ah=%s;ma=%s;ex=%s;pn=%s",
 		gen.B(ran), gen.B(fctx.Response.StatusCode() == 204), opt(rh, "Access-Control-Allow-Origin"),
